@@ -171,36 +171,99 @@ def runTrie (pol dflt sels hosts : String) (fi pi : String) : String :=
     s!"{if agree then "A" else "D"} {if spec then "S" else "V"} F:{mf} P:{mp}"
   | _, _, _, _, _ => "E E bad-case"
 
+/-! ### adversarial key strings (kinds `ak`, `gk`): every key and value is `x<hex of its bytes>` (ASCII), so that keys may be
+empty or contain the characters the line protocol (and an implementation joining keys) separates with -/
+
+def unhexStr (s : String) : Option String :=
+  if s.startsWith "x" then
+    (unhex (s.drop 1).toString).map (fun bs => String.ofList (bs.map (fun b => Char.ofNat b.toNat)))
+  else none
+
+def hexStr (s : String) : String := "x" ++ (if s.isEmpty then "" else hex (s.toList.map (fun c => UInt8.ofNat c.toNat)))
+
+def parsePairsX (s : String) : Option Path :=
+  if s == "-" then some [] else
+  (s.splitOn ";").mapM (fun kv => match kv.splitOn "=" with
+    | [k, v] => match unhexStr k, unhexStr v with
+      | some k, some v => some (k, v)
+      | _, _ => none
+    | _ => none)
+
+def parseSelectorsX (s : String) : Option (List (List Key)) :=
+  if s == "-" then some [] else
+  (s.splitOn ",").mapM (fun sel => if sel == "_" then some [] else (sel.splitOn "+").mapM unhexStr)
+
+def parseHostsX (s : String) : Option (List Host) :=
+  if s == "-" then some [] else
+  (s.splitOn ",").mapM (fun h => match h.splitOn "/" with
+    | [n, m, f] => (parsePairsX m).map (fun md => ({ name := n, md := md, healthy := f == "H" } : Host))
+    | _ => none)
+
+def parseQueryX (s : String) : Option Query :=
+  if s == "nilctx" then some .nilCtx
+  else if s == "nilcrit" then some .nilCrit
+  else if s.startsWith "c:" then (parsePairsX (s.drop 2).toString).map .crit
+  else none
+
+def selsTok (l : List (List Key)) : String :=
+  if l.isEmpty then "-" else joinWith "," (l.map (fun s => if s.isEmpty then "_" else joinWith "+" (s.map hexStr)))
+
+/-- the declarative content of `SubsetKeys`, from the raw configuration and independent of the model: the sorted
+duplicate-free key list of every configured selector, each once, in order of first appearance -/
+def expectKeys (raw : List (List Key)) : List (List Key) :=
+  raw.foldl (fun acc r => let s := sortStrings (dedup r); if acc.contains s then acc else acc ++ [s]) []
+
+/-- kind `gk`: `GenerateSubsetKeys` alone -/
+def runGk (sels obs : String) : String :=
+  match parseSelectorsX sels with
+  | some raw =>
+    let m := selsTok (generateSubsetKeys raw)
+    -- the property needs the SET of key lists (order and multiplicity are the model's business: A/D)
+    let asSet (t : String) : List String := if t == "-" then [] else sortStrings (dedup (t.splitOn ","))
+    let e := selsTok (expectKeys raw)
+    s!"{if obs == m then "A" else "D"} {if asSet obs == asSet e then "S" else "V"} {m}"
+  | none => "E E bad-case"
+
+/-- one configuration + query against both observed balancers (kinds q / raw / in.* / ak) -/
+def runQuery (kind : String) (policy : Nat) (d : Path) (hs : List Host) (raw : List (List Key)) (q : Query)
+    (fObs pObs : String) : String :=
+  let keys := generateSubsetKeys raw
+  let mf := observe (newFilter hs policy d keys) hs.length q
+  let mp := observe (newPreS goGrow id hs policy d keys) hs.length q
+  let innerKind := kind.startsWith "in."
+  -- criteria produced by the real router code (kinds q / ak / in.*) must be what the model's `mkCriteria` builds
+  let critOk := match q with
+    | .crit c => kind == "raw" || mkCriteria c == c
+    | _ => true
+  let agree := critOk && (if innerKind then innerOk mf fObs && innerOk mp pObs else fObs == mf && pObs == mp)
+  -- kinds q / ak: criteria built by the real router code from a map (the expectation reads them as a set of pairs)
+  let wellFormed := kind == "q" || kind == "ak"
+  let spec :=
+    if innerKind then
+      let e := expect hs raw policy d q
+      innerOk e fObs && innerOk e pObs
+    else if wellFormed then
+      let e := expect hs raw policy d q
+      fObs == e && pObs == e
+    else match q with
+      | .crit c => weakOk hs policy d c fObs && weakOk hs policy d c pObs && fObs == pObs
+      | _ => false
+  s!"{if agree then "A" else "D"} {if spec then "S" else "V"} F:{mf} P:{mp}"
+
 def run (caseToks impl : List String) : String :=
   match caseToks, impl with
   | ["px", mode, pol, dflt, sels, hosts, route, reqs], [obs] => runPx mode pol dflt sels hosts route reqs obs
   | ["t", pol, dflt, sels, hosts, "trie"], [fi, pi] => runTrie pol dflt sels hosts fi pi
+  | ["gk", sels], [obs] => runGk sels obs
+  | ["ak", pol, dflt, sels, hosts, query], [fi, pi] =>
+    match pol.toNat?, parsePairsX dflt, parseSelectorsX sels, parseHostsX hosts, parseQueryX query,
+        stripTag "F:" fi, stripTag "P:" pi with
+    | some policy, some d, some raw, some hs, some q, some fObs, some pObs => runQuery "ak" policy d hs raw q fObs pObs
+    | _, _, _, _, _, _, _ => "E E bad-case"
   | [kind, pol, dflt, sels, hosts, query], [fi, pi] =>
     match pol.toNat?, parsePairs dflt, parseHosts hosts, parseQuery query, stripTag "F:" fi, stripTag "P:" pi with
     | some policy, some d, some hs, some q, some fObs, some pObs =>
-      let raw := parseSelectors sels
-      let keys := generateSubsetKeys raw
-      let mf := observe (newFilter hs policy d keys) hs.length q
-      let mp := observe (newPreS goGrow id hs policy d keys) hs.length q
-      let innerKind := kind.startsWith "in."
-      -- criteria produced by the real router code (kinds q / in.*) must be what the model's `mkCriteria` builds
-      let critOk := match q with
-        | .crit c => kind == "raw" || mkCriteria c == c
-        | _ => true
-      let agree := critOk && (if innerKind then innerOk mf fObs && innerOk mp pObs else fObs == mf && pObs == mp)
-      -- kind q: criteria built by the real router code from a map (the expectation reads them as a set of pairs)
-      let wellFormed := kind == "q"
-      let spec :=
-        if innerKind then
-          let e := expect hs raw policy d q
-          innerOk e fObs && innerOk e pObs
-        else if wellFormed then
-          let e := expect hs raw policy d q
-          fObs == e && pObs == e
-        else match q with
-          | .crit c => weakOk hs policy d c fObs && weakOk hs policy d c pObs && fObs == pObs
-          | _ => false
-      s!"{if agree then "A" else "D"} {if spec then "S" else "V"} F:{mf} P:{mp}"
+      runQuery kind policy d hs (parseSelectors sels) q fObs pObs
     | _, _, _, _, _, _ => "E E bad-case"
   | _, _ => "E E bad-shape"
 
